@@ -109,7 +109,7 @@ def shard_a(s, ns, tier, seed):
                 part.violation('%s class=%s attr=%s' % (site, cls, bad.split('(')[0]), '%s (%s): %s' % (b[:mx[0]].hex(), mx[2].strip(), bad), wit,
                                size=len(meta[0]) * 1000 + meta[3])
             else:
-                part.ok(core.h64(b), outcome=(cls, got))
+                part.ok(core.h64(b), outcome=(cls, got), sample={'bytes': b[:mx[0]].hex(), 'instr': mx[2].strip(), 'class': cls, 'flow': list(got)} if len(part.samples) < 2 and cls != 'none' else None)
     return part
 
 
@@ -215,7 +215,8 @@ def target_case(part, ia32, form, d, off):
         part.n += 1
         part.violation('form=%s attr=%s' % (name, bad[0]), '%s at %#x: %s' % (enc.hex(), off, bad[1]), wit, size=abs(d) + off)
     else:
-        part.ok(core.h64((name, d, off)), outcome=(name, exp_dst & 0xff))
+        part.ok(core.h64((name, d, off)), outcome=(name, exp_dst & 0xff),
+                sample={'form': name, 'bytes': enc.hex(), 'offset': hex(off), 'getdstflow': hex(int(dst[0]))} if len(part.samples) < 2 and off > 0x7fffffff else None)
 
 
 def shard_b(s, ns, tier, seed):
@@ -240,7 +241,6 @@ def run(tier, seed):
     part.counters['target_cases'] = pb.n
     part.counters['classification_cases'] = part.n
     part.merge(pb)
-    part.samples = [s for s in part.samples][:4] + [{'form': 'e8', 'disp': -0x80000000, 'offset': '0xfffffff0'}]
     rule = ('(A) every string of S_x86 accepted by both decoders without superfluous prefix: control-flow class from a hand-written table on '
             '(map, opcode, /digit) [jmp: eb e9 ea ff/4 ff/5; ret: c3 c2 cb ca cf; hlt f4; ud2 0f0b; jcc: 70-7f 0f80-8f e0-e3; call: e8 9a ff/2 ff/3; '
             'sys*/ud0/ud1 excluded; everything else not block-ending], accepted only where objdump\'s mnemonic gives the same class; '
